@@ -3,7 +3,7 @@
 rewriter, input and output are executed in V8 inside the effect-logging membrane
 (harness/js/membrane.js) under the default scenario and single-fault / re-entry scenarios, and the
 recorded effect logs are judged by TLC with TraceDyn.tla (ObsEquiv)."""
-import json, os, random, sys, time
+import json, os, random, re, sys, time
 import vlib, gen, static_pipeline as sp
 
 FREE = ["a", "b", "c", "d", "s", "f", "g", "h", "o", "p", "x", "y", "z", "v", "w", "i", "k", "q", "v1", "v2", "c2", "trim"]
@@ -33,10 +33,32 @@ def cases(seed, tier):
     return out
 
 
+def canon_key(k):
+    k = str(k)
+    # a function / class value used as a property key is its SOURCE TEXT, which rewriting legitimately reformats
+    if "=>" in k or k.startswith(("function", "class ", "async ")) or "function" in k[:30]:
+        return "<source text of a function>"
+    return k
+
+
 def canon_event(e):
     return {"e": str(e.get("e", "")), "x": str(e.get("o", e.get("f", ""))),
-            "k": str(e.get("k", e.get("h", e.get("d", "")))), "v": str(e.get("v", e.get("t", ""))),
+            "k": canon_key(e.get("k", e.get("h", e.get("d", "")))), "v": str(e.get("v", e.get("t", ""))),
             "a": [str(x) for x in e.get("a", [])]}
+
+
+CALLFORM = re.compile(r"((?:[\w$]+\.)*[\w$]+)\.(?:call|apply)\(")
+REALPATH = re.compile(r"^(?:String\.prototype\.(?:trim|concat|substring|replace|slice|toUpperCase|padStart|repeat|toString)"
+                      r"|K\.prototype\.(?:trim|concat|substring|replace|slice|toUpperCase|padStart|repeat|foo|bar)"
+                      r"|Array\.prototype\.(?:concat|slice|push|toString))$")
+
+
+def comparable_dynamically(code):
+    """X.….m.call|apply(..) forms are compared dynamically only when the callee path is made of real intrinsics
+    that exist (String.prototype.m, K.prototype.m): the property permits reading a static path before or after the this-argument,
+    and for a path rooted in an observable / reassignable object that permitted reordering makes the two runs
+    incomparable (the static checks C02 / C03 still cover those forms)."""
+    return all(REALPATH.match(m.group(1)) for m in CALLFORM.finditer(code))
 
 
 def canon_hook(h):
@@ -76,6 +98,8 @@ def run(seed, tier, extra_cases=None, use_cache=True):
         bc = st["cases"][rid]
         if bc.get("outcome") != "ok" or not bc.get("content") or "eff" not in bc:
             continue
+        if not comparable_dynamically(c["code"]):
+            continue
         eff = bc["eff"]
         kinds = {m["dst"]: "method" for m in eff["methods"]}
         if eff["plus"]:
@@ -95,6 +119,7 @@ def run(seed, tier, extra_cases=None, use_cache=True):
     recs = []
     bycase = {}
     nerr = 0
+    nskip_src = 0
     for job in jobs:
         res = results.get(job["id"])
         rid, mode = job["id"].split("/")
@@ -111,6 +136,12 @@ def run(seed, tier, extra_cases=None, use_cache=True):
                 if (a.get("outcome") or {}).get("k") == "syntax" or (b.get("outcome") or {}).get("k") != "syntax":
                     continue
             resp = run_.get("resp") or {}
+            blob = json.dumps([a.get("log"), b.get("log"), a.get("outcome"), b.get("outcome")])
+            if "=>" in blob or "function" in blob or "class " in blob:
+                # a function value was used as a property key / coerced to text: its SOURCE TEXT is in the log,
+                # and rewriting legitimately reformats source text (Function.prototype.toString): not comparable
+                nskip_src += 1
+                continue
             rrid = "%s/%s/%s" % (rid, mode, run_.get("sid"))
             dd = b.get("ddiast") or {}
             recs.append({
@@ -123,6 +154,7 @@ def run(seed, tier, extra_cases=None, use_cache=True):
                 "hooks": [canon_hook(h) for h in b.get("hooks", [])],
                 "statdevs": meta[rid]["statdevs"], "alldsts": meta[rid]["alldsts"],
                 "protocall": (".call(" in st["cases"][rid]["code"]) or (".apply(" in st["cases"][rid]["code"]),
+                "spreadthis": bool(re.search(r"\.(?:call|apply)\(\s*\.\.\.", st["cases"][rid]["code"])),
                 "primfault": any(k.startswith("prim:") and (v or {}).get("k") == "throw" for k, v in resp.items()),
                 "reenter": any((v or {}).get("k") == "reenter" for v in resp.values()),
                 "absent": mode == "a", "ns_exists": bool(dd.get("exists")), "ns_keys": [str(x) for x in dd.get("keys", [])],
